@@ -397,3 +397,4 @@ def _register_wsgi_response(reg):
                  "implies(bodyless(self.status_code), forall(0, len(result[2]), lambda i: result[2][i][0].lower() != 'content-length'))"],
         raises={},
     )
+
